@@ -1846,7 +1846,11 @@ func CantAdd(mach am.Api, states am.S, args am.A) bool {
 	args2 := &am.ACheck{
 		CheckDone: make(chan struct{}),
 	}
-	mach.CanAdd(states, am.PassMerge(args, am.Pass(args2)))
+	res := mach.CanAdd(states, am.PassMerge(args, am.Pass(args2)))
+	// never queued (disposed, backoff), CheckDone won't be closed
+	if res == am.Canceled {
+		return true
+	}
 	<-args2.CheckDone
 
 	return args2.Canceled
@@ -1862,7 +1866,11 @@ func CantRemove(mach am.Api, states am.S, args am.A) bool {
 	args2 := &am.ACheck{
 		CheckDone: make(chan struct{}),
 	}
-	mach.CanRemove(states, am.PassMerge(args, am.Pass(args2)))
+	res := mach.CanRemove(states, am.PassMerge(args, am.Pass(args2)))
+	// never queued (disposed, backoff), CheckDone won't be closed
+	if res == am.Canceled {
+		return true
+	}
 	<-args2.CheckDone
 
 	return args2.Canceled
